@@ -20,7 +20,8 @@ def insertBy (kind : FrameKind) (o : Interp.ChildResult) : Interp.M Unit :=
 def kindOfAction : Interp.Action → FrameKind
   | .call i => .call i.retStart i.retEnd
   | .create _ => .create 0
-  | .eofCreate _ => .create 0   -- L1 COMPAT PATCH (EOF merge): never reached, `frameAction` refuses the action
+  -- never consulted: `frameAction` refuses `Action.eofCreate` before anything is delivered (legacy-only model)
+  | .eofCreate _ => .create 0
 
 /-- what the loop does next -/
 inductive Next (κ : Type)
@@ -63,8 +64,8 @@ def frameAction {κ : Type} (C : CpOps κ) (cfg : Cfg) (top : Frame κ) (rest : 
   let (fr, w) ← (match a with
     | .call i => makeCallFrame C cfg w i s.mem
     | .create i => makeCreateFrame C cfg w i s.mem
-    -- L1 COMPAT PATCH (Interp gained this action with the EOF merge): outside the legacy scope of the model
-    | .eofCreate _ => throw (.panic "EOFCREATE: outside the legacy scope of the model"))
+    -- EOF frames are not modelled here (legacy code never emits this action: EOFCREATE stops a legacy frame)
+    | .eofCreate _ => throw (.panic "unsupported: Action.eofCreate (EOF frames are not modelled)"))
   match fr with
   | .frame f => pure (.run (f :: top :: rest) w)
   | .result o => deliver (kindOfAction a) o top rest s.mem w
